@@ -41,7 +41,7 @@ Proof. constructor; try reflexivity. exists []. rewrite app_nil_r. split; [refle
 Lemma catch_Fo c m p w : Fo m w (fst (catch c m p w)).
 Proof.
   unfold catch. destruct p; cbn [fst]; [|apply Fo_refl].
-  destruct (c_catch c); cbn [fst]; [apply Fo_set_active|].
+  destruct (catchf (w_mod w m)); cbn [fst]; [apply Fo_set_active|].
   eapply Fo_trans; [apply Fo_set_active|apply Fo_set_err].
 Qed.
 
